@@ -296,7 +296,7 @@ def run_unit(unit, case, tier="quick"):
                 ob.add(solve.prove(assum + extra_as, gz, gopts.get("timeout", timeout),
                                     dict(gopts.get("solver_opts", unit.solver_opts) or {}, rewrites=gopts.get("rewrites"),
                                          ring_only=gopts.get("ring_only", False), try_eval=gopts.get("try_eval", False),
-                                         abstract_nl=gopts.get("abstract_nl", False))), ptag)
+                                         abstract_nl=gopts.get("abstract_nl", False), abstract_only=gopts.get("abstract_only", False))), ptag)
         # cover: at least one returning path is feasible
         cover = ObResult(f"{uname}:cover")
         ncov = 0
